@@ -117,31 +117,39 @@ def sweep (E : Evals K) (P : Params K) (period half : K) (nodes state : List (K 
   let res := (nodes.zip state).map (fun ns => implNode E P period half ns.1.1 ns.1.2 ns.2)
   (res.map Prod.fst, (res.map Prod.snd).foldl normUpd 0)
 
-/-- `norm = tol+1; while (norm > tol): …` — returns the final end points, the number of sweeps and the norms seen -/
-def implLoop (E : Evals K) (P : Params K) (period half tol : K) (nodes : List (K × K)) :
+/-- `norm = tol+1; while (norm > tol): …` — returns the final end points, the number of sweeps and the norms seen.
+    `rnd` is applied to the end points carried from one sweep to the next: `rnd = id` is the iteration of the code in exact
+    arithmetic (all theorems); the driver uses `round2 80` (nearest-below multiple of 2^-80) so that the rationals stay of
+    bounded size — the carried points then differ from the exact iterates by < 2^-80 per sweep, 2^27 times less than
+    the rounding of the double-precision code itself. -/
+def implLoop (E : Evals K) (P : Params K) (period half tol : K) (rnd : K → K) (nodes : List (K × K)) :
     ℕ → List (K × K) → ℕ → List K → Option (List (K × K) × ℕ × List K)
   | 0, _, _, _ => none
   | fuel+1, state, cnt, norms =>
     let sn := sweep E P period half nodes state
-    if sn.2 > tol then implLoop E P period half tol nodes fuel sn.1 (cnt + 1) (norms ++ [sn.2])
-    else some (sn.1, cnt + 1, norms ++ [sn.2])
+    let st := sn.1.map (fun p => (rnd p.1, rnd p.2))
+    if sn.2 > tol then implLoop E P period half tol rnd nodes fuel st (cnt + 1) (norms ++ [sn.2])
+    else some (st, cnt + 1, norms ++ [sn.2])
 
 /-- nodes in the order of the loops: `i` (theta) outer, `j` (r) inner -/
 def nodeList (qPts rPts : ℕ → K) (nq nr : ℕ) : List (K × K) :=
   (List.range nq).flatMap (fun i => (List.range nr).map (fun j => (qPts i, rPts j)))
 
 /-- `poloidal_advection_step_impl`: the new `f` (row-major), the converged feet, the number of sweeps, the norms -/
-def implStep (E : Evals K) (P : Params K) (period half tol : K) (fuel : ℕ) (qPts rPts : ℕ → K) (nq nr : ℕ) :
-    Option (List (Val K) × List (K × K) × ℕ × List K) :=
+def implStep (E : Evals K) (P : Params K) (period half tol : K) (rnd : K → K) (fuel : ℕ) (qPts rPts : ℕ → K)
+    (nq nr : ℕ) : Option (List (Val K) × List (K × K) × ℕ × List K) :=
   let nodes := nodeList qPts rPts nq nr
-  let init := nodes.map (fun n => implInit E P n.1 n.2)
-  (implLoop E P period half tol nodes fuel init 0 []).map
+  let init := nodes.map (fun n => let p := implInit E P n.1 n.2; (rnd p.1, rnd p.2))
+  (implLoop E P period half tol rnd nodes fuel init 0 []).map
     (fun r => (r.1.map (finalVal E P), r.1, r.2.1, r.2.2))
 
 /-! ### concrete instances used by the driver and by the non-vacuity examples -/
 
 /-- `x % period` for `period > 0` (Python float `%` takes the sign of the divisor) -/
 def pmod [FloorRing K] (period x : K) : K := x - period * (⌊x / period⌋ : ℤ)
+
+/-- round down to a multiple of `2^-bits` (driver only, see `implLoop`) -/
+def round2 [FloorRing K] (bits : ℕ) (x : K) : K := ((⌊x * 2 ^ bits⌋ : ℤ) : K) / 2 ^ bits
 
 /-- 2-D spline evaluator (0 if a span search fails — never for sorted knots) -/
 def spline2D (t1 : ℕ → K) (nk1 deg1 : ℕ) (t2 : ℕ → K) (nk2 deg2 : ℕ) (c : ℕ → ℕ → K)
